@@ -14,6 +14,8 @@ mod mon_b;
 mod mon_c;
 mod mon_d;
 mod mon_e;
+mod mon_f;
+mod digest_corpus;
 mod mon_par;
 mod supervise;
 mod mon_stream;
@@ -58,6 +60,7 @@ fn run_monitor(ctx: &Ctx) -> i32 {
         "C17" => mon_e::run_c17(ctx),
         "C18" => mon_e::run_c18(ctx),
         "C19" => mon_c::run_c19(ctx),
+        "C20" => mon_f::run_c20(ctx),
         other => {
             eprintln!("unknown property {other}");
             64
